@@ -100,13 +100,17 @@ Inductive c12case :=
 | FlagCase (pk ne te : N) (fs : fields) (tmpl : list val) (nd : dict)
            (impl_adv : outcome (list (str * val)))
            (occs : list (str * str))
-           (impl : outcome (list val)) (impl_stacked : outcome (list val)).
+           (impl : outcome (list val)) (impl_stacked : outcome (list val))
+| FlagSkip.   (* the returned value holds a float too large for the harness' value printer *)
 
 (* verdicts: 0 pass (incl. cases with colliding flag names, which are outside
    the property and the model), 3 property fails, 12 = known class 2 (a field
-   name is split by DecodeGoCamelCase into other words than it is made of) *)
+   name is split by DecodeGoCamelCase into other words than it is made of),
+   14 = known class 4 (two leaves flatten to the same Go field name:
+   reflect.StructOf panics while the flags are registered) *)
 Definition check (c : c12case) : N :=
   match c with
+  | FlagSkip => 0
   | FlagCase pk ne te fs tmpl nd iadv occs impl istacked =>
       let p := pkg_of pk in
       match flag_regs p ne te fs tmpl with
@@ -121,8 +125,11 @@ Definition check (c : c12case) : N :=
           let nok := match mregs with
                      | Ok regs => names_ok p te nd regs (paths (alias_fields (flag_alias_keys p) (ptrify_fields fs)))
                      | _ => true end in
-          if same then (if nok then 0 else 12)
-          else 3
+          match impl, model with
+          | Panic _, Panic 4 => if same then 14 else 3   (* colliding flattened Go names: known class 4 *)
+          | Panic _, _ => 3                             (* no other panic is ever acceptable *)
+          | _, _ => if same then (if nok then 0 else 12) else 3
+          end
       end
   end.
 
